@@ -26,6 +26,7 @@ type Pipe struct {
 	ClosedAt   int64  // virtual time of the first Close
 	NClose     int
 	ShortReads bool // offer "deliver 1 byte" as an environment deviation
+	SplitRead  bool // a Read that obtained data returns in a second step (other tasks may run in between)
 
 	Writes []int // size of every chunk accepted (for atomicity diagnostics)
 	Reads  int
@@ -83,6 +84,10 @@ func (p *Pipe) Read(b []byte) (n int, err error) {
 		return vs.CostNone
 	}})
 	_ = alt
+	if p.SplitRead && n > 0 {
+		// the data is in the caller's buffer but the call has not returned yet
+		vs.Yield("pipe.Read:return")
+	}
 	return
 }
 
